@@ -68,13 +68,15 @@ fn gen_write_script(rng: &mut Rng, seeks: bool) -> Vec<WStep> {
 }
 
 pub fn cfg_for_handles(rng: &mut Rng) -> Cfg {
-    match rng.below(8) {
+    match rng.below(10) {
         0 | 1 => Cfg::Mem,
         2 => Cfg::Phys,
         3 => Cfg::Alt(Box::new(Cfg::Mem), "/__alt/p".into()),
         4 => Cfg::Alt(Box::new(Cfg::Phys), "/__alt".into()),
         5 => Cfg::Ovl(vec![(Cfg::Mem, "".into()), (Cfg::Mem, "/__lay1".into())]),
         6 => Cfg::Ovl(vec![(Cfg::Phys, "/__lay0".into()), (Cfg::Mem, "".into()), (Cfg::Phys, "".into())]),
+        8 => Cfg::Ovl(vec![(Cfg::Mem, "".into()), (Cfg::Mem, "/__lay1".into()), (Cfg::Mem, "".into()), (Cfg::Mem, "".into())]),
+        9 => Cfg::OvlShared(Box::new(Cfg::Mem), 3),
         _ => Cfg::Alt(Box::new(Cfg::Ovl(vec![(Cfg::Mem, "".into()), (Cfg::Phys, "".into())])), "/__alt".into()),
     }
 }
@@ -91,6 +93,19 @@ pub fn place_file(b: &Built, rng: &mut Rng, bytes: &[u8]) -> Result<(VfsPath, &'
             let mut tree = std::collections::BTreeMap::new();
             tree.insert("/f".to_string(), crate::model::Node::File(bytes.to_vec()));
             crate::prepop::write_tree(&views[li].1, &prefix, &tree)?;
+            // the layers below the serving one hold the same path with other (longer and shorter) bytes: they are shadowed
+            for (k, deeper) in views.iter().enumerate().skip(li + 1) {
+                let mut decoy = std::collections::BTreeMap::new();
+                let mut other = bytes.to_vec();
+                if k % 2 == 0 {
+                    other.extend_from_slice(b"-shadowed-older-version");
+                } else {
+                    other.truncate(other.len() / 2);
+                    other.push(b'#');
+                }
+                decoy.insert("/f".to_string(), crate::model::Node::File(other));
+                crate::prepop::write_tree(&deeper.1, &prefix, &decoy)?;
+            }
             how = "lower-layer";
             return Ok((target, how));
         }
